@@ -226,6 +226,13 @@ type stepTrace struct {
 	Model    interface{} `json:"model_out,omitempty"`
 }
 
+func short(s string) string {
+	if len(s) > 300 {
+		return s[:300] + "…"
+	}
+	return s
+}
+
 func errClass(err error) string {
 	if err == nil {
 		return ""
@@ -280,8 +287,8 @@ func (h *H) eval(cs Case) *rig.Failure {
 		tr := stepTrace{Op: st.Op}
 		trace = append(trace, tr)
 		t := &trace[len(trace)-1]
-		if name == "" {
-			name, ns = docMeta(st.Submitted)
+		if s.Mem.Len() == 0 {
+			name, ns = docMeta(st.Submitted) // nothing stored: the request names the object
 		}
 		ctx := s.ctx(ns)
 		key := s.key(name, ns)
@@ -441,7 +448,7 @@ func (h *H) eval(cs Case) *rig.Failure {
 				// (an explicit empty list/map/bytes against an absent one): its own class
 				class = "c20.generation-bumped-on-empty-vs-absent"
 				what = fmt.Sprintf("step %d: %s of %s (%s): generation %d -> %d although spec and annotations read the same before and after; the request spelled an empty list/map/bytes out (or the store held one): decoded spec %s vs %s, annotations %s vs %s",
-					i, st.Op, s.Kind, s.Name, oldAPI.Generation, out2API.Generation, subDeep.Spec, oldDeep.Spec, subDeep.Annotations, oldDeep.Annotations)
+					i, st.Op, s.Kind, s.Name, oldAPI.Generation, out2API.Generation, short(subDeep.Spec), short(oldDeep.Spec), subDeep.Annotations, oldDeep.Annotations)
 			}
 			return fail("judge", class, what, j)
 		}
@@ -596,7 +603,7 @@ func randMask(r interface{ Intn(int) int }) int {
 }
 
 // breakMeta makes the metadata unacceptable to the ObjectMeta validation in a known way.
-func (h *H) breakMeta(s *Served, doc []byte, create bool) []byte {
+func (h *H) breakMeta(s *Served, doc []byte, create bool, op string) []byte {
 	r := h.c.Rng
 	m := toMap(doc)
 	md, _ := m["metadata"].(map[string]interface{})
@@ -608,13 +615,16 @@ func (h *H) breakMeta(s *Served, doc []byte, create bool) []byte {
 	if create && k == 1 {
 		k = 0
 	}
+	if !create && op == "status" && k == 0 {
+		k = 1 // the status strategy puts the stored labels back, so a bad label never reaches the validation
+	}
 	switch k {
 	case 0:
 		md["labels"] = map[string]interface{}{"app": "not a valid label value!"}
 	case 1:
 		md["uid"] = "another-uid"
 	case 2:
-		md["name"] = "Not_A_DNS_Name"
+		md["name"] = "no/slash" // path.ValidatePathSegmentName; on update also "field is immutable"
 	}
 	b, _ := json.Marshal(m)
 	return b
@@ -756,7 +766,7 @@ func (h *H) genCase(s *Served, stream string) Case {
 			st.Submitted, _ = h.withEmpties(s, st.Submitted)
 		}
 		if stream == "invalid-meta" || (stream == "history" && r.Intn(6) == 0) {
-			st.Submitted = h.breakMeta(s, st.Submitted, !exists)
+			st.Submitted = h.breakMeta(s, st.Submitted, !exists, st.Op)
 			st.MetaValid = false
 		}
 		cs.Steps = append(cs.Steps, st)
@@ -802,73 +812,6 @@ func (h *H) diffMask(s *Served, cs Case) string {
 		out = "none"
 	}
 	return out
-}
-
-// ---------------------------------------------------------------------------------------------------
-// shrinking: fewer steps, then fewer field groups, then fewer spec/status members
-
-func (h *H) shrink(cs Case) Case {
-	fails := func(x Case) bool { return !h.run(x, false) }
-	if len(cs.Steps) > 1 {
-		cs.Steps = rig.ShrinkList(cs.Steps, func(l []Step) bool { x := cs; x.Steps = l; return len(l) > 0 && fails(x) })
-	}
-	edit := func(x Case, f func(m map[string]interface{})) Case {
-		y := Case{Served: x.Served, Stream: x.Stream, Stored: x.Stored}
-		if string(x.Stored) != "null" && len(x.Stored) > 0 {
-			m := toMap(x.Stored)
-			f(m)
-			y.Stored, _ = json.Marshal(m)
-		}
-		for _, st := range x.Steps {
-			m := toMap(st.Submitted)
-			f(m)
-			b, _ := json.Marshal(m)
-			y.Steps = append(y.Steps, Step{Op: st.Op, Submitted: b, MetaValid: st.MetaValid})
-		}
-		return y
-	}
-	try := func(f func(m map[string]interface{})) {
-		if y := edit(cs, f); fails(y) {
-			cs = y
-		}
-	}
-	for _, g := range []string{"status", "spec"} {
-		g := g
-		try(func(m map[string]interface{}) { delete(m, g) })
-	}
-	for _, k := range []string{"labels", "annotations", "finalizers"} {
-		k := k
-		try(func(m map[string]interface{}) {
-			if md, ok := m["metadata"].(map[string]interface{}); ok {
-				delete(md, k)
-			}
-		})
-	}
-	for _, g := range []string{"status", "spec"} {
-		keys := map[string]bool{}
-		collect := func(m map[string]interface{}) {
-			if gm, ok := m[g].(map[string]interface{}); ok {
-				for k := range gm {
-					keys[k] = true
-				}
-			}
-		}
-		edit(cs, collect)
-		ks := []string{}
-		for k := range keys {
-			ks = append(ks, k)
-		}
-		sort.Strings(ks)
-		for _, k := range ks {
-			g, k := g, k
-			try(func(m map[string]interface{}) {
-				if gm, ok := m[g].(map[string]interface{}); ok {
-					delete(gm, k)
-				}
-			})
-		}
-	}
-	return cs
 }
 
 // ---------------------------------------------------------------------------------------------------
@@ -1021,8 +964,8 @@ func main() {
 			}
 			c.Case(rig.Canon(cs), mask != "none", fmt.Sprintf("%s/%s/%s/%s", s.Name, stream, ops, mask), func() interface{} { return cs })
 			c.Trace()
-			if !h.run(cs, false) {
-				small := h.shrink(cs)
+			if f0 := h.eval(cs); f0 != nil {
+				small := h.shrink(cs, f0.Class)
 				f := h.eval(small)
 				if f == nil { // cannot happen (shrink keeps failing cases); be safe
 					f = h.eval(cs)
